@@ -3,3 +3,18 @@ impl Alignment {
         match self { Alignment::Complete(x) => x as int, Alignment::Partial(x) => x as int }
     }
 }
+
+// ASSUMED model of the unicode-width crate: display columns of a text (East-Asian wide characters count two in the
+// `_cjk` variant).  Uninterpreted: a byte or char count can never be proved equal to it.
+pub uninterp spec fn width_cjk_spec(s: Seq<char>) -> nat;
+pub uninterp spec fn width_spec(s: Seq<char>) -> nat;
+pub struct UnicodeWidthStr;
+impl UnicodeWidthStr {
+    #[verifier::external_body]
+    pub fn width_cjk(s: &str) -> (r: usize) ensures r == width_cjk_spec(s@) { unimplemented!() }
+    #[verifier::external_body]
+    pub fn width(s: &str) -> (r: usize) ensures r == width_spec(s@) { unimplemented!() }
+}
+// String::len counts UTF-8 bytes (ASSUMED; uninterpreted, so it is never provably a display width)
+pub uninterp spec fn utf8_len_spec(s: Seq<char>) -> nat;
+pub assume_specification [std::string::String::len](s: &String) -> (r: usize) ensures r == utf8_len_spec(s@);
